@@ -183,6 +183,15 @@ static void driver(void *arg)
         }
         sim_progress();
         int resumed = 0;
+        /* The request certainly precedes the unit's first pop when the driver is a ULT running on
+         * the only stream that serves the unit's pool and does not yield in between: the pop is
+         * then the unit's next scheduling point, and it must terminate there without running. */
+        int certainly_before_pop = 0;
+        if (in->cancel && in->cancel_delay == 0 && kind == AK_ULT && S.rt.pool_es[u->pool] >= 0) {
+            ABT_xstream self;
+            ABT_OK(ABT_self_get_xstream(&self));
+            certainly_before_pop = self == S.rt.xs[S.rt.pool_es[u->pool]];
+        }
         if (in->cancel) {
             pause_d(kind, in->cancel_delay);
             int started_before = u->starts;
@@ -226,6 +235,11 @@ static void driver(void *arg)
                       u->starts, u->completions);
             if (in->behaviour == BH_LOOP && !u->is_task)
                 SIM_CHECK(u->completions == 0, "lifecycle:cancel-ignored", "unit %d loops for ever unless cancelled, yet it completed", u->id);
+            if (certainly_before_pop) {
+                SIM_CHECK(u->starts == 0, "lifecycle:cancel-ignored", "%s %d incarnation %d was cancelled while it sat in the pool of the canceller's own stream, yet its function ran", u->is_task ? "tasklet" : "ULT",
+                          u->id, k);
+                sim_count(u->is_task ? "c12.tasklets_cancelled_in_their_pool" : "c12.ults_cancelled_in_their_pool", 1);
+            }
         }
         int t0 = u->ticks;
         pause_d(kind, 2);
